@@ -59,7 +59,15 @@ class Run:
                     return ("Some", v) if v is not None else ("None",)
                 if name in ("is_i64", "is_u64", "is_f64"):
                     return recv[1].get(name[3:]) is not None
-            if isinstance(recv, tuple) and recv and recv[0] == "text" and name == "len":
+            if isinstance(recv, tuple) and recv and recv[0] == "text":
+                # ("text", byte_length, char_count): RFC 8610 3.8.1 counts bytes for .size on text
+                if name == "len":
+                    return recv[1]
+                if name == "chars":
+                    return ("chars", recv[2] if len(recv) > 2 else recv[1])
+                if name in ("as_bytes", "bytes", "as_str", "as_ref"):
+                    return ("bytes", recv[1]) if name in ("as_bytes", "bytes") else recv
+            if isinstance(recv, tuple) and recv and recv[0] == "chars" and name == "count":
                 return recv[1]
             if isinstance(recv, tuple) and recv and recv[0] == "bytes" and name == "len":
                 return recv[1]
@@ -136,6 +144,18 @@ def cmp_table(facts, which, cfgname="default"):
     """rows: dict(kind, ctrl, point, verdict ('accept'/'reject'/'unknown: ..'), expected)"""
     fi = visitor_fn(facts, which, "visit_value")
     rows = []
+    # text .size N : the size of a text string is its number of bytes (RFC 8610 3.8.1)
+    for (label, nbytes, nchars, exp) in (("bytes=N,chars<N", 3, 1, True), ("bytes>N,chars=N", 5, 3, False), ("bytes<N", 2, 2, False), ("bytes=chars=N", 3, 3, True)):
+        docv = ("enum", "Value::String" if which == "json" else "Value::Text", [("text", nbytes, nchars)])
+        src_env = {("self.json" if which == "json" else "self.cbor"): docv, "self.state.ctrl": ctrl_val("SIZE")}
+        r = Run(facts, which, cfgname, src_env, {"value": ("enum", "token::Value::UINT", [3])})
+        try:
+            r.run(fi.node)
+            verdict = "reject" if r.errors else "accept"
+        except Unknown as u:
+            verdict = "unknown: %s" % u
+        rows.append({"kind": "TEXT.size", "ctrl": "SIZE", "point": label, "verdict": verdict,
+                     "expected": "accept" if exp else "reject", "line": fi.line, "file": fi.file})
     for kind in ("INT", "UINT", "FLOAT"):
         for ctrl in CTRLS:
             for (label, lit, doc) in cmp_points(kind, which):
@@ -205,13 +225,13 @@ def range_table(facts, which, cfgname="default"):
                         if doc == "number":
                             docv = ("enum", "Value::Number", [json_number(vv)])
                         else:
-                            docv = ("enum", "Value::String", [("text", v)])
+                            docv = ("enum", "Value::String", [("text", v, v - 10)])
                         src_env = {"self.json": docv}
                     else:
                         if doc == "number":
                             docv = ("enum", "Value::Float", [vv]) if fl else ("enum", "Value::Integer", [v])
                         else:
-                            docv = ("enum", "Value::Text", [("text", v)])
+                            docv = ("enum", "Value::Text", [("text", v, v - 10)])
                         src_env = {"self.cbor": docv}
                     src_env["self.state.ctrl"] = ctrl_val("SIZE" if doc == "text.size" else None)
                     env = {"lower": bound(lk, l), "upper": bound(uk, u), "is_inclusive": incl}
@@ -244,7 +264,7 @@ def occ_val(o):
 
 OCCURS = [None, ("Optional", None, None), ("ZeroOrMore", None, None), ("OneOrMore", None, None),
           ("Exact", 2, 4), ("Exact", None, 3), ("Exact", 2, None), ("Exact", None, None), ("Exact", 0, 1), ("Exact", 1, None),
-          ("Exact", 0, None), ("Exact", 3, 3)]
+          ("Exact", 0, None), ("Exact", 3, 3), ("Exact", 1000000000000, None)]
 
 
 def oracle_minmax(o):
@@ -282,6 +302,9 @@ def seq_entry_table(facts, which, cfgname="default"):
             state = {"n": 0}
 
             def once(run, node, recv, k=k, state=state):
+                state["calls"] = state.get("calls", 0) + 1
+                if state["calls"] > 40:
+                    raise Unknown("more than 40 iterations")
                 cur = run.it.eval(node["a"][2])
                 if not isinstance(cur, int):
                     raise Unknown("cursor not tracked")
@@ -308,7 +331,12 @@ def seq_entry_table(facts, which, cfgname="default"):
                 verdict = "unknown: %s" % e
             mn, mx = oracle_minmax(o)
             if k == "Z":
-                exp = "match+0"
+                # a zero-width iteration must end the loop at once, whatever the lower bound (termination)
+                if not verdict.startswith("unknown"):
+                    verdict += " after %d call(s)" % state.get("calls", 0)
+                exp = "match+0 after 1 call(s)"
+                if mx == 0:
+                    exp = "match+0 after 0 call(s)"
             else:
                 n = k if mx is None else min(k, mx)
                 exp = "match+%d" % n if n >= mn else "nomatch"
@@ -379,3 +407,66 @@ def _show(v):
     if isinstance(v, tuple) and v[0] == "Ok" and v[1] == ("None",):
         return "nomatch"
     return "unknown: result %r" % (v,)
+
+
+# --------------------------------------------------------------------------
+# visit_control_operator: the mode flag state.ctrl is restored on every Ok exit
+# --------------------------------------------------------------------------
+
+def self_obj(which, docv, ctrl=("None",)):
+    state = ("enum", "ValidationState", {"ctrl": ctrl, "eval_generic_rule": ("None",), "generic_rules": absint.MutList(),
+                                         "is_ctrl_map_equality": False, "occurrence": ("None",), "cddl": OPAQUE})
+    return ("enum", "Self", {"state": state, "json" if which == "json" else "cbor": docv, "errors": absint.MutList()})
+
+
+def ctrl_restore_table(facts, which, cfgname="default"):
+    fi = visitor_fn(facts, which, "visit_control_operator")
+    enum = facts.item("src/token.rs", "enum", "ControlOperator")
+    rows = []
+    if which == "json":
+        docs = {"number": ("enum", "Value::Number", [json_number(3)]), "string": ("enum", "Value::String", [("text", 3, 3)]),
+                "array": ("enum", "Value::Array", [OPAQUE]), "object": ("enum", "Value::Object", [OPAQUE])}
+    else:
+        docs = {"number": ("enum", "Value::Integer", [3]), "string": ("enum", "Value::Text", [("text", 3, 3)]),
+                "array": ("enum", "Value::Array", [OPAQUE]), "object": ("enum", "Value::Map", [OPAQUE]), "bytes": ("enum", "Value::Bytes", [("bytes", 3)])}
+    targets = {"typename": ("enum", "Type2::Typename", {"ident": ("enum", "Identifier", {"ident": ("str", "t")}), "generic_args": ("None",)}),
+               "array": ("enum", "Type2::Array", {"group": OPAQUE}), "map": ("enum", "Type2::Map", {"group": OPAQUE}),
+               "uint": ("enum", "Type2::UintValue", {"value": 3})}
+    for v in enum["variants"]:
+        cname = v["name"]
+        for tname, tval in targets.items():
+            for pred in (True, False):
+                for dname, dval in docs.items():
+                    obj = self_obj(which, dval)
+                    visits = []
+
+                    def visit(run, node, recv, obj=obj, visits=visits):
+                        visits.append(obj[2]["state"][2]["ctrl"])
+                        return ("Ok", ("tuple", []))
+
+                    def isident(run, node, args, pred=pred):
+                        return pred
+                    scripts = {"visit_type2": visit, "visit_type": visit, "visit_group": visit}
+                    r = Run(facts, which, cfgname, {}, {"self": obj, "target": tval, "ctrl": ("enum", "ControlOperator::" + cname, []),
+                                                        "controller": ("enum", "Type2::UintValue", {"value": 3})}, scripts=scripts)
+                    base_on_call = r.on_call
+
+                    def on_call(kind, name, node, args, recv, base=base_on_call, pred=pred):
+                        if kind == "fn" and name and (name.startswith("is_ident_") or name.startswith("ident_")):
+                            return pred
+                        return base(kind, name, node, args, recv)
+                    r.it.on_call = on_call
+                    key = "%s|target=%s|preds=%s|doc=%s" % (cname, tname, pred, dname)
+                    try:
+                        res = r.run(fi.node)
+                    except Unknown as e:
+                        continue
+                    except Return:
+                        continue
+                    if not (isinstance(res, tuple) and res[0] == "Ok") and res != ("tuple", []) and res is not OPAQUE:
+                        if isinstance(res, tuple) and res[0] == "Err":
+                            continue
+                    after = obj[2]["state"][2]["ctrl"]
+                    rows.append({"key": key, "ctrl_after": "None" if after == ("None",) else repr(after)[:60], "visits": len(visits),
+                                 "line": fi.line, "file": fi.file})
+    return rows
